@@ -480,6 +480,11 @@ func (k *Keyer) callKey(c *ssa.Call) string {
 		if b.Name() == "len" || b.Name() == "cap" {
 			unique = true // lengths change; keep them per-site
 		}
+	} else if m, recv := k.boundMethodParam(c.Call.Value); m != nil {
+		// a call of a function parameter that is, at every call of this private function, the same bound
+		// method (`findHighest(qcs, c.VerifyQuorumCert)`): it is a call of that method
+		name = shorten(m.String())
+		args = append(args, recv)
 	} else {
 		name = "dyn " + k.Key(c.Call.Value)
 	}
@@ -673,3 +678,64 @@ func callKeyPrefix(p *Prog, fn *ssa.Function) string {
 }
 
 var addrDerefRe = regexp.MustCompile(`&\[(p\d+)\]->`)
+
+var boundParamMemo = map[*ssa.Parameter]*ssa.Function{}
+var boundParamSeen = map[*ssa.Parameter]bool{}
+
+// boundMethodParam: v is a function-typed parameter of the keyer's function, an unexported function of the module
+// never used as a value, and every call of it passes a method value of one and the same method. Returns the
+// method and a placeholder key for its receiver.
+func (k *Keyer) boundMethodParam(v ssa.Value) (*ssa.Function, string) {
+	prm, ok := v.(*ssa.Parameter)
+	if !ok || k.Fn == nil || prm.Parent() != k.Fn {
+		return nil, ""
+	}
+	if _, isSig := prm.Type().Underlying().(*types.Signature); !isSig {
+		return nil, ""
+	}
+	idx := -1
+	for i, q := range k.Fn.Params {
+		if q == prm {
+			idx = i
+		}
+	}
+	recv := "bound:p" + itoa(idx)
+	if boundParamSeen[prm] {
+		return boundParamMemo[prm], recv
+	}
+	boundParamSeen[prm] = true
+	fn := k.Fn
+	if idx < 0 || fn.Object() == nil || fn.Object().Exported() || fn.Parent() != nil || !inModule(funcPkgPath(fn)) {
+		return nil, ""
+	}
+	ci := callIndexOf(k.P)
+	if ci.asValue[fn] || len(ci.callers[fn]) == 0 {
+		return nil, ""
+	}
+	var m *ssa.Function
+	for _, r := range ci.callers[fn] {
+		call, ok := r.Instr.(ssa.CallInstruction)
+		if !ok || idx >= len(call.Common().Args) {
+			return nil, ""
+		}
+		mc, ok := call.Common().Args[idx].(*ssa.MakeClosure)
+		if !ok || len(mc.Bindings) != 1 {
+			return nil, ""
+		}
+		w, ok := mc.Fn.(*ssa.Function)
+		if !ok || !strings.HasPrefix(w.Synthetic, "bound method wrapper") || w.Object() == nil {
+			return nil, ""
+		}
+		tf, ok := w.Object().(*types.Func)
+		if !ok {
+			return nil, ""
+		}
+		target := k.P.SSA.FuncValue(tf)
+		if target == nil || (m != nil && m != target) {
+			return nil, ""
+		}
+		m = target
+	}
+	boundParamMemo[prm] = m
+	return m, recv
+}
